@@ -125,7 +125,7 @@ def analyse_sweep(wd, plan, harness_out):
     def close():
         nonlocal cur, trace, fired
         if cur is not None:
-            res['finals'].add((cur[0], fired, tuple(l for l in trace if l.startswith(('settle', 'shret', 'final')))))
+            res['finals'].add((cur, fired, tuple(l for l in trace if l.startswith(('settle', 'shret', 'final')))))
             if fired: res['injected'] += 1
             if len(res['samples']) < 3 and fired:
                 res['samples'].append(' ; '.join(trace)[:600])
